@@ -3,6 +3,11 @@
 import json, os, subprocess
 
 CLAIMS = {
+ "C13": dict(
+   category="exploration", design_ref="DESIGN.md §5 C13",
+   technique="differential testing over generated programs: schemas drawn by the schema generator are turned into fresh Go packages with gengo.Generate from the working tree, compiled, and a rapid-driven lock-step test (dropped into each package) compares the generated engine with bindnode and with the reference views/conformance parser on generated inputs",
+   text="Type systems within the generator's documented feature set (plus fixed regression specs; both union memory layouts) are generated afresh, must compile, and inside each package the tree of a conforming value with 0-3 local mutations is offered at type and representation level, by assembler calls in drawn styles, strict/relaxed DAG-CBOR and DAG-JSON, to the generated prototype and to bindnode.Prototype of the same type: accept/reject must agree (and agree with the reference parser), accepted nodes must satisfy the reference type and representation views on both engines (full self-consistency reader) and encode to identical bytes.",
+   note="Trusted: go build; reference views/parser. Bounded to schemas of ≤7 named types; enums, listpairs, Any and implicit values are outside the generator's feature set. The empty stringprefix delimiter (a Go API artefact) is not generated for the code generator."),
  "C08": dict(
    category="exploration", design_ref="DESIGN.md §5 C08, Appendix B",
    technique="property-based testing (rapid) over generated schemas × typed values against reference typeView/reprView functions written from the schema spec; two build routes; encode/decode fixpoint against the reference DAG-CBOR encoder; also compiled into the generated-code differential harness (C13)",
